@@ -83,10 +83,15 @@ func Verif_C17_expiry() {
 			v, ok := cache.Get("k")
 			verifAssert(ok && v == 1, "entry present before its expiry tick")
 		}
-		cache.Set("k", 2)
+		// the re-Set stores a new value or the value already there: either way the
+		// entry's age counts from this Set
+		want = 1 + verifChoose("resetValue", 2)
+		cache.Set("k", want)
 		verifYield()
 		d = verifLastAround
-		want = 2
+		if want == 1 {
+			verifReach("re-set-same-value")
+		}
 		verifReach("re-set")
 	}
 	fireTick := int(d / time.Second)
